@@ -204,6 +204,9 @@ func tvMap(kk string, kvs [][2]any) *TV {
 }
 func tvStruct(fs [][3]any) *TV { return &TV{T: "struct", V: fs} }
 
+// tvTypedMap: a map whose value type is that of its values (map[string]int, map[string]*float64)
+func tvTypedMap(kk string, kvs [][2]any) *TV { return &TV{T: "map", KK: kk, N: 1, V: kvs} }
+
 func hx(s string) string { return hex.EncodeToString([]byte(s)) }
 func unhx(s string) string {
 	b, _ := hex.DecodeString(s)
@@ -321,6 +324,23 @@ func build(t *TV) (reflect.Value, bool) {
 			kt = anyT
 		}
 		mt := reflect.MapOf(kt, anyT)
+		// N == 1 on a map: a map whose VALUE type is the type of its (alike) values - map[string]int, map[string]*float64 - instead of `any`
+		// (the model has no static value type for maps: to it this is the same object)
+		if t.N == 1 {
+			var vt reflect.Type
+			for _, kv := range t.V.([][2]any) {
+				if ev, ok := build(kv[1].(*TV)); ok {
+					if vt == nil {
+						vt = ev.Type()
+					} else if vt != ev.Type() {
+						vt = anyT
+					}
+				}
+			}
+			if vt != nil {
+				mt = reflect.MapOf(kt, vt)
+			}
+		}
 		if t.Nil == 1 {
 			return reflect.Zero(mt), true
 		}
